@@ -83,9 +83,15 @@ def call_traced(thunk, ws=None):
     exc, msg = None, ""
     names = {_h5name(ws)} if ws is not None else set()
     rp0 = bool(getattr(ws, "_repack", False))
+    ret = "n/a"
     with iotrace.Trace() as t:
         try:
-            thunk()
+            r = thunk()
+            try:
+                ret = "empty" if r is None or (hasattr(r, "__len__") and len(r) == 0) else "nonempty"
+            except BaseException:  # noqa: BLE001
+                ret = "nonempty"
+            del r
         except BaseException as e:  # noqa: BLE001
             if isinstance(e, (KeyboardInterrupt, SystemExit, MemoryError)):
                 raise
@@ -97,7 +103,7 @@ def call_traced(thunk, ws=None):
     return {"calls": [[c["fn"], c["mode"], c["file"], c["line"], c["handle"], c["out"], c["repack"], c["in_close"]] for c in mine],
             "entries": [[e["fn"], e["hmode"], e["out"]] for e in ents],
             "foreign_calls": len(t.calls) - len(mine), "foreign_entries": len(t.entries) - len(ents),
-            "repack_before": rp0, "repack_after": bool(getattr(ws, "_repack", False)),
+            "repack_before": rp0, "repack_after": bool(getattr(ws, "_repack", False)), "returned": ret,
             "exc": exc, "msg": msg}
 
 
@@ -113,7 +119,7 @@ def dead_count(ws, kind):
     return sum(1 for v in reg.values() if v() is None)
 
 
-def run_entry(work, mode, entry, state="open", tag="e"):
+def run_entry(work, mode, entry, state="open", tag="e", hold=False):
     """One entry point on a fresh copy of the fixture opened with `mode`; state 'closed': the workspace is closed (after the
     operands were located) before the call."""
     path, log = fresh_copy(work, tag + mode.replace("+", "p"))
@@ -121,6 +127,11 @@ def run_entry(work, mode, entry, state="open", tag="e"):
     os.makedirs(tmp, exist_ok=True)
     res = {"fixture_problems": log}
     sha0 = iofix.sha256(path)
+    holder = None
+    if hold:            # another handle keeps the file open read-only: h5py.File(path, "r+") raises OSError, open() falls back to "r"
+        import h5py
+
+        holder = h5py.File(path, "r")
     with warnings.catch_warnings():
         warnings.simplefilter("ignore")
         ws = open_ws(path, mode)
@@ -139,7 +150,7 @@ def run_entry(work, mode, entry, state="open", tag="e"):
             res["handle_before"] = iotrace.handle_state(ws)
             res.update(call_traced(thunk, ws))
             res["handle_after"] = iotrace.handle_state(ws)
-            res["sha_same_open"] = iofix.sha256(path) == sha0 if mode == "r" or state == "closed" else None
+            res["sha_same_open"] = iofix.sha256(path) == sha0 if mode == "r" or state == "closed" or hold else None
         finally:
             try:
                 ws.close()
@@ -147,6 +158,8 @@ def run_entry(work, mode, entry, state="open", tag="e"):
                 res["close_exc"] = iotrace.exc_kind(e)
             if ws._geoh5:  # noqa: SLF001
                 ws._geoh5.close()  # noqa: SLF001
+            if holder is not None:
+                holder.close()
     res["sha_same"] = iofix.sha256(path) == sha0
     res["nfiles"] = iotrace.n_open_files()
     if mode != "r" and state == "open":
